@@ -111,6 +111,7 @@ class Canon:
         self.inline = inline          # callable(call node) -> FunctionDef of a single-expression helper, or None
         self._depth = 0
         self.callee_of = None         # callable(call node) -> FunctionDef the call resolves to (for default arguments), or None
+        self.lambda_of = None         # callable(Name node) -> Lambda equal to the one-expression helper (added since the review) it names, or None
         self.extra_ints = set()       # local names inferred to hold integers (see infer_int_locals)
         if int_names is None:
             self.int_name = lambda t: False
@@ -283,11 +284,17 @@ class Canon:
         return [e]
 
     def _fold(self, e):
+        if isinstance(e, ast.Call) and isinstance(e.func, ast.Name):
+            e.func._is_callee = True
         for fld, val in ast.iter_fields(e):
             if isinstance(val, ast.AST):
                 setattr(e, fld, self._fold(val))
             elif isinstance(val, list):
                 setattr(e, fld, [self._fold(v) if isinstance(v, ast.AST) else v for v in val])
+        if isinstance(e, ast.Name) and isinstance(e.ctx, ast.Load) and self.lambda_of is not None and not getattr(e, "_is_callee", False):
+            lam = self.lambda_of(e)
+            if lam is not None:
+                return self._fold(self._alpha(lam, {}, [0]))
         if isinstance(e, (ast.Name, ast.Attribute)) and self.const_of is not None and isinstance(getattr(e, "ctx", None), ast.Load):
             v = self.const_of(e)
             if isinstance(v, (int, bytes, str)) and not isinstance(v, bool):
@@ -321,6 +328,20 @@ class Canon:
                 for i_, a_ in enumerate(e.args):
                     if isinstance(a_, ast.Call) and isinstance(a_.func, ast.Name) and a_.func.id in ("list", "tuple") and len(a_.args) == 1 and not a_.keywords:
                         e.args[i_] = a_.args[0]
+            if any(isinstance(a_, ast.Starred) and isinstance(a_.value, (ast.List, ast.Tuple)) for a_ in e.args):
+                flat = []
+                for a_ in e.args:
+                    if isinstance(a_, ast.Starred) and isinstance(a_.value, (ast.List, ast.Tuple)) and not any(isinstance(x, ast.Starred) for x in a_.value.elts):
+                        flat += a_.value.elts       # f(a, *[b, c]) is f(a, b, c)
+                    else:
+                        flat.append(a_)
+                e.args = flat
+            if ft == "super" and len(e.args) == 2 and not e.keywords and isinstance(e.args[0], ast.Name) and isinstance(e.args[1], ast.Name) and e.args[1].id in ("self", "cls"):
+                e.args = []                         # super(Tx, self) inside Tx is super()
+            if ft == "list" and len(e.args) == 1 and not e.keywords and isinstance(e.args[0], ast.Subscript) and isinstance(e.args[0].slice, ast.Slice):
+                # list(X[a:b]) is list(X)[a:b] (X is a sequence, or X[a:b] would not work)
+                inner = e.args[0]
+                return self._fold(ast.Subscript(ast.Call(ast.Name("list", ast.Load()), [inner.value], []), inner.slice, ast.Load()))
             if ft == "getattr" and len(e.args) == 2 and not e.keywords and isinstance(e.args[1], ast.Constant) and isinstance(e.args[1].value, str) and e.args[1].value.isidentifier():
                 return ast.Attribute(e.args[0], e.args[1].value, ast.Load())      # getattr(x, "name") is x.name
             if ft == "list" and len(e.args) == 1 and not e.keywords and isinstance(e.args[0], (ast.ListComp, ast.List)):
@@ -1718,6 +1739,32 @@ def expanded(ctx, fi):
     return cache[fi.qualname][0]
 
 
+def make_lambda_resolver(ctx, fi):
+    """Name -> ast.Lambda for a module-level function ADDED SINCE THE REVIEW whose body is one return expression
+    (a named stand-in for a lambda the reviewed code wrote in place)"""
+    from . import modref
+    locals_ = set(fi.params()) | set(df.assignments(fi.node))
+
+    def resolve(name):
+        if name.id in locals_:
+            return None
+        try:
+            r = ctx.p.resolve_global(fi.module, name.id)
+        except Exception:
+            return None
+        node = getattr(r, "node", None)
+        if not isinstance(node, ast.FunctionDef) or modref.is_reviewed(r) or node.decorator_list:
+            return None
+        body = [x for x in node.body if not (isinstance(x, ast.Expr) and isinstance(x.value, ast.Constant))]
+        if len(body) != 1 or not isinstance(body[0], ast.Return):
+            return None
+        args = copy.deepcopy(node.args)
+        for a in args.args + args.posonlyargs + args.kwonlyargs + ([args.vararg] if args.vararg else []) + ([args.kwarg] if args.kwarg else []):
+            a.annotation = None
+        return ast.Lambda(args, copy.deepcopy(body[0].value) if body[0].value is not None else ast.Constant(None))
+    return resolve
+
+
 def make_callee_resolver(ctx, fi):
     """call -> FunctionDef it resolves to: plain names (module / imports), self.m and cls.m through fi's class and bases"""
     locals_ = set(fi.params()) | set(df.assignments(fi.node))
@@ -2844,6 +2891,7 @@ def reference_status(ctx, fi, ref_source, ref_names, int_names=None, leaf=None, 
     canon_ref = Canon(ref_const_of if (ref_consts or dotted_consts) else None, int_names,
                       (lambda c: ref_funcs.get(c.func.id) if isinstance(c.func, ast.Name) and c.func.id != "_" else None) if inline else None)
     canon_code.callee_of = canon_ref.callee_of = make_callee_resolver(ctx, fi)
+    canon_code.lambda_of = make_lambda_resolver(ctx, fi)
     s_code = summarize(expanded(ctx, fi), canon_code, leaf, keep)
     best = None
     for ref_name in ref_names:
